@@ -452,6 +452,67 @@ def r11n(ctx, rep, rule="R11n"):
             rep.ok(rule, key, "parse calls no trim / strip function on a token's text", [p.span])
 
 
+def r11q(ctx, rep, rule="R11q"):
+    """converse of R11a: Incomplete is said only where the token cursor ran out"""
+    facts = ctx["facts"]
+    rep.rule(rule, "a complete datum is never reported incomplete: parse::Error::Incomplete means 'the tokens stop inside a datum', "
+             "and the front ends answer it by waiting for more text. Every construction of that variant, anywhere in the library, "
+             "therefore sits on the end-of-cursor edge of the *token* cursor: it is the argument of an ok_or whose receiver is the "
+             "cursor's next()/peek(), or it lies in the None arm of a match on one. A construction under any other condition (the "
+             "end of a character iterator inside one token, say) reports a datum whose tokens are all there as unfinished.")
+    n = 0
+
+    def token_cursor_call(fn, t):
+        if callee(t) not in PEEK_NEXT or not t["args"]:
+            return False
+        p = op_place(t["args"][0])
+        ty = (p or {}).get("ty") or ""
+        return "Chars" not in ty and "CharIndices" not in ty and "Peekable<" in ty
+
+    for path, fn in sorted(facts.fns.items()):
+        if not path.startswith("marwood::"):
+            continue
+        sites = [(bb, j, s) for bb, j, s in fn.stmts() if s["rv"]["k"] == "agg" and s["rv"].get("adt") == "marwood::parse::Error"
+                 and s["rv"].get("variant") == "Incomplete"]
+        if not sites:
+            continue
+        curs = [(bb, t) for bb, t in fn.calls() if token_cursor_call(fn, t)]
+        none_regions = set()
+        for cb, ct in curs:
+            if ct["dest"]["p"]:
+                continue
+            d = ct["dest"]["l"]
+            for bb, j, s in fn.stmts():
+                if s["rv"]["k"] == "disc" and s["rv"]["place"]["l"] == d:
+                    dl = s["lhs"]["l"]
+                    for b2, blk in enumerate(fn.blocks):
+                        t2 = blk["term"]
+                        if t2["k"] == "switch" and op_place(t2["op"]) and op_place(t2["op"])["l"] == dl:
+                            for v, tg in t2["targets"]:
+                                if v == 0 and tg != t2.get("otherwise") and len([q for q in fn.pred[tg] if q in fn.reachable()]) == 1:
+                                    none_regions |= {b for b in fn.reachable() if fn.dominates(tg, b)}
+        k = 0
+        for bb, j, s in sites:
+            k += 1
+            n += 1
+            key = "%s|%s|incomplete#%d" % (rule, fn.path.rsplit("::", 1)[-1] if "{closure" not in fn.path else fn.short, k)
+            ok = bb in none_regions
+            if not ok:
+                for cb, ct in fn.calls():
+                    if (callee(ct) or "").startswith("std::option::Option::<T>::ok_or") and len(ct["args"]) > 1:
+                        o = fn.origin(ct["args"][1])
+                        if o[0] == "rv" and o[1] is s:
+                            r = fn.origin(ct["args"][0])
+                            if r[0] == "call" and token_cursor_call(fn, r[1]):
+                                ok = True
+            (rep.ok if ok else rep.fail)(
+                rule, key, "%s says Incomplete on the end-of-tokens edge of the token cursor" % fn.short if ok else
+                "%s constructs parse::Error::Incomplete where the token cursor has not run out: a datum whose tokens are all "
+                "present is reported as unfinished, and a front end that waits for more text on Incomplete never gets out" % fn.short,
+                [s["loc"]])
+    rep.floor(rule, "constructions of parse::Error::Incomplete", n, 6)
+
+
 def run(ctx, rep):
     r11a(ctx, rep)
     r11b(ctx, rep)
@@ -470,6 +531,7 @@ def run(ctx, rep):
     scanloop.r11l(ctx, rep)
     r11m(ctx, rep)
     r11n(ctx, rep)
+    r11q(ctx, rep)
     from . import units
     units.r15a(ctx, rep, rule="R11d", scope=("marwood::lex::", "marwood::parse::", "marwood::syntax::"))
     rep.rules["R11d"] = "span units: " + rep.rules["R11d"]
